@@ -26,6 +26,8 @@ def plan(tier, seed):
     specs.append({"name": "project", "kind": "project", "n": 200 if q else 3000, "timeout": 600})
     specs.append({"name": "perturb", "kind": "perturb", "n": 200 if q else 3000, "timeout": 600})
     specs.append({"name": "real", "kind": "real", "n": 1 if q else 4, "timeout": 2400})
+    # the recorded witness of the known finding (Inference.optimize returning a point outside its bounds), re-run every time
+    specs.append({"name": "witness-optimize-oob", "kind": "opt", "b": 9, "n": 2, "fixed_seed": 5045, "only_opt": "optimize", "once": True, "timeout": 600})
     return specs
 
 
@@ -142,6 +144,8 @@ def run_opt(spec, rec, dadi):
     from dadi import Inference
     for ci in range(spec["n"]):
         for oi, oname in enumerate(OPTIMISERS):
+            if spec.get("only_opt") and oname != spec["only_opt"]:
+                continue
             rng = rng_for(spec["seed"], "C12", spec["b"], ci, oi)
             npar = int(rng.integers(1, 5))
             f, nd = make_model(dadi, npar)
@@ -225,6 +229,14 @@ def run_opt(spec, rec, dadi):
             if fixed is not None:
                 fx_ok = all(np.all(H[:, i] == fixed[i]) for i in range(npar) if fixed[i] is not None)
                 rec.check("fixed-never-varied:" + oname, bool(fx_ok), site=site, tags=tags)
+            if oname.startswith("opt-") and np.all(np.isnan(xopt)) and reported is not None and np.isneginf(float(reported)):
+                # dadi.Inference.opt documents this outcome: when nlopt raises RoundoffLimited it prints a message and returns nan
+                # parameters with a likelihood of -inf.  That is an explicit report that no optimum was found, not a returned
+                # optimum, and is not judged (counted; the required event counts keep it from becoming the norm)
+                rec.hit("optimiser-reported-failure:" + oname)
+                continue
+            # an optimiser that hands back the out-of-bounds penalty as its optimum says itself that its point is infeasible
+            tags = dict(tags, reports_out_of_bounds_penalty=bool(reported is not None and np.isfinite(float(reported)) and float(reported) <= -1e7))
             legal = bool(np.all(np.isfinite(xopt)) and len(xopt) == npar)
             if legal and fixed is not None:
                 legal = all(xopt[i] == fixed[i] for i in range(npar) if fixed[i] is not None)
